@@ -16,7 +16,7 @@ from symx.models import SDateTime
 from checks import p1_common as PC
 
 PROP = "C11"
-ENGINE_EXC = (PathAbort, EngineLimit, EngineFault)
+ENGINE_EXC = (PathAbort, EngineLimit, EngineFault) + core.HARNESS_SIDE
 KFAM = [("1-0:1.7.0", "kW", "active_power_import"), ("1-0:1.8.0", "kWh", "active_power_import_total"), ("1-0:3.7.0", "kvar", "reactive_power_import"), ("1-0:4.8.0", "kvarh", "reactive_power_export_total")]
 VFAM = [("1-0:32.7.0", "V", "voltage_l1"), ("1-0:31.7.0", "A", "current_l1"), ("1-0:99.1.0", "var", "99.1.0"), ("1-0:99.2.0", "varh", "99.2.0")]
 
